@@ -73,6 +73,11 @@ var _ = config.Config{}
 
 func H_C07_crash_resume() {
 	ha := []string{"m", "r1", "r2"}
+	span := uint(20) // transactions each server may originate
+	if verifnd.Param("hosts", 3) == 4 {
+		ha = append(ha, "r3")
+		span = 15
+	}
 	cfg := verifConfig("r2")
 	// semi-synchronous (w = 1) or asynchronous cluster
 	cfg.SemiSync = verifnd.Choose("cfg.semisync", verifnd.Param("modes", 2)) == 0
@@ -87,11 +92,11 @@ func H_C07_crash_resume() {
 	// ---- GTIDs of a semi-sync cluster: replicas hold subsets of the master's set ----
 	bits := uint64(1)<<uint(verifnd.Param("gtid_bits", 3)) - 1
 	ms := w.fleet.Servers["m"]
-	// transaction universe: m originates t0..t19 (the low gtid_bits of them exist before the
-	// request, the rest are client commits during the history), r1 t20..t39, r2 t40..t59
-	ms.OwnBits = 1<<20 - 1
-	w.fleet.Servers["r1"].OwnBits = (1<<20 - 1) << 20
-	w.fleet.Servers["r2"].OwnBits = (1<<20 - 1) << 40
+	// transaction universe: every server originates `span` transactions (20 with 3 hosts, 15 with 4);
+	// the low gtid_bits of the master's exist before the request, the rest are client commits
+	for i, h := range ha {
+		w.fleet.Servers[h].OwnBits = (uint64(1)<<span - 1) << (uint(i) * span)
+	}
 	if !cfg.SemiSync {
 		for _, h := range ha {
 			s := w.fleet.Servers[h]
@@ -146,8 +151,11 @@ func H_C07_crash_resume() {
 	// acknowledged to the client at once on a server without semi-sync, and on a semi-sync
 	// master only when a connected semi-sync replica has received it.
 	load := verifnd.Choose("client.load", verifnd.Param("loads", 2)) == 1
-	next := map[string]uint{"m": uint(verifnd.Param("gtid_bits", 3)), "r1": 20, "r2": 40}
-	last := map[string]uint{"m": 20, "r1": 40, "r2": 60}
+	next, last := map[string]uint{}, map[string]uint{}
+	for i, h := range ha {
+		next[h], last[h] = uint(i)*span, uint(i+1)*span
+	}
+	next["m"] = uint(verifnd.Param("gtid_bits", 3))
 	lastSig := ""
 	client := func() {
 		if !load {
@@ -204,11 +212,19 @@ func H_C07_crash_resume() {
 	}
 
 	// ---- the next manager (new daemon instance on r1) ----
+	// With crashes = 2 the successor may die too, right before its k-th environment call (decision
+	// crash2.at, counted over all its iterations); a third daemon instance (on r2 again: the
+	// restarted first host) then takes over.
 	var app2 *App
 	rounds := verifnd.Param("rounds", 6)
+	crash2At, calls2, crashed2 := 0, 0, false
+	if verifnd.Param("crashes", 1) >= 2 {
+		crash2At = verifnd.Choose("crash2.at", verifnd.Param("max_calls2", 40)+1)
+	}
+	succHost := "r1"
 	successor := func() bool {
 		if app2 == nil {
-			app2 = verifNewAppOn(w, "r1")
+			app2 = verifNewAppOn(w, succHost)
 		}
 		quiet := false
 		for i := 0; i < rounds && !quiet; i++ {
@@ -218,7 +234,41 @@ func H_C07_crash_resume() {
 			}
 			n0, m0 := len(w.fleet.Log), w.dcs.masterHost()
 			_, pending0 := w.dcs.peek(pathCurrentSwitch)
-			st := app2.stateManager()
+			var st appState
+			died := false
+			if crash2At != 0 && !crashed2 {
+				b1, b2 := w.fleet.Before, w.dcs.Before
+				tick2 := func() {
+					calls2++
+					if calls2 == crash2At {
+						crashed2 = true
+						panic(verifCrash{})
+					}
+				}
+				w.fleet.Before = func(host, stmt string) { b1(host, stmt); tick2() }
+				w.dcs.Before = func(op, path string) { b2(op, path); tick2() }
+				func() {
+					defer func() {
+						if r := recover(); r != nil {
+							if _, ok := r.(verifCrash); !ok {
+								panic(r)
+							}
+							died = true
+						}
+					}()
+					st = app2.stateManager()
+				}()
+				w.fleet.Before, w.dcs.Before = b1, b2
+			} else {
+				st = app2.stateManager()
+			}
+			if died {
+				verifnd.Reach("C07.successor-crashed")
+				verifnd.Fact("successor_crash_before_call", itoa(crash2At))
+				succHost = "r2"
+				app2 = verifNewAppOn(w, succHost)
+				continue
+			}
 			verifnd.Assert(st == stateManager, "resume.stays-manager")
 			_, pending := w.dcs.peek(pathCurrentSwitch)
 			// quiescent: a whole iteration with no request pending before or after it, no statement sent to
@@ -320,6 +370,9 @@ func H_C07_crash_resume() {
 	}
 
 	quiet := successor()
+	if crash2At != 0 && !crashed2 {
+		verifnd.Assume(false) // fewer environment calls than the chosen point: covered by crash2.at = 0
+	}
 	if !quiet {
 		verifnd.Reach("C07.not-quiescent")
 	}
@@ -387,3 +440,7 @@ func itoa(n int) string {
 	}
 	return s
 }
+
+// H_C07_two_crashes: the same history with a second failure — the successor dies as well, at any
+// of its environment calls, and a third daemon instance finishes.
+func H_C07_two_crashes() { H_C07_crash_resume() }
